@@ -273,3 +273,269 @@ Qed.
 
 Lemma nest_flatten ts s : is_flat ts = true -> nest_top ts = Ok s -> flats s = ts.
 Proof. exact (nest_top_flats ts s). Qed.
+
+(* ------------------------------------------------------------------ *)
+(* fuel of the specification tokenizer is irrelevant once it covers the input *)
+Lemma tok_spec_fuel : forall f1 f2 bs, length bs <= f1 -> length bs <= f2 -> tok_spec f1 bs = tok_spec f2 bs.
+Proof.
+  induction f1 as [|f1 IH]; intros f2 bs H1 H2; destruct bs as [|b r]; try (destruct f2; reflexivity).
+  - cbn in H1. lia.
+  - destruct f2 as [|f2]; [cbn in H2; lia|]. cbn [length] in H1, H2.
+    cbn [tok_spec].
+    assert (Hs : forall k, length (skipn k r) <= length r) by (intros k; rewrite skipn_length; lia).
+    destruct ((1 <=? b2n b)%N && (b2n b <=? 75)%N).
+    + destruct (N.of_nat (length r) <? b2n b)%N; [reflexivity|].
+      rewrite (IH f2) by (specialize (Hs (N.to_nat (b2n b))); lia). reflexivity.
+    + destruct ((76 <=? b2n b)%N && (b2n b <=? 78)%N).
+      * destruct (Nat.ltb (length r) (len_width (b2n b))); [reflexivity|].
+        destruct (N.of_nat (length (skipn (len_width (b2n b)) r)) <? le_val (firstn (len_width (b2n b)) r))%N; [reflexivity|].
+        rewrite (IH f2); [reflexivity| |].
+        -- pose proof (Hs (len_width (b2n b))).
+           pose proof (skipn_length (N.to_nat (le_val (firstn (len_width (b2n b)) r))) (skipn (len_width (b2n b)) r)). lia.
+        -- pose proof (Hs (len_width (b2n b))).
+           pose proof (skipn_length (N.to_nat (le_val (firstn (len_width (b2n b)) r))) (skipn (len_width (b2n b)) r)). lia.
+      * destruct (is_opcode (b2n b)); [|reflexivity]. rewrite (IH f2) by lia. reflexivity.
+Qed.
+
+(* ------------------------------------------------------------------ *)
+(* nesting succeeds exactly on balanced token lists *)
+Definition toks (ts : list bit) : list tok := map tok_of_bit ts.
+
+Definition st0 (m : mode) (st : list bmode) : list bmode :=
+  match m with Top => [] | Pass => BPass :: st | Fail => BFail :: st end.
+Definition st1 (m : mode) (t : term) (st : list bmode) : list bmode :=
+  match m, t with
+  | Pass, TElse => BFail :: st
+  | Pass, TEndif => st
+  | Fail, TEndif => st
+  | _, _ => []
+  end.
+Definition mt_ok (m : mode) (t : term) (r : list bit) : Prop :=
+  match m, t with
+  | Top, TEnd => r = []
+  | Pass, TElse => True
+  | Pass, TEndif => True
+  | Fail, TEndif => True
+  | _, _ => False
+  end.
+
+Lemma is_if_else : is_if OP_ELSE = false. Proof. reflexivity. Qed.
+Lemma is_if_endif : is_if OP_ENDIF = false. Proof. reflexivity. Qed.
+
+Lemma balanced_plain st c r :
+  is_if c = false -> (c =? OP_ELSE)%N = false -> (c =? OP_ENDIF)%N = false ->
+  balanced_from st (TOp c :: r) = balanced_from st r.
+Proof. intros H1 H2 H3. cbn [balanced_from]. rewrite H1, H2, H3. reflexivity. Qed.
+
+Lemma nest_balanced : forall f m ts,
+  is_flat ts = true -> length ts < f ->
+  match nest f m ts with
+  | Ok (bs, t, r) => mt_ok m t r /\ length r <= length ts /\ is_flat r = true /\
+                     forall st, balanced_from (st0 m st) (toks ts) = balanced_from (st1 m t st) (toks r)
+  | Err => forall st, balanced_from (st0 m st) (toks ts) = false
+  | Panic => False
+  end.
+Proof.
+  induction f as [|f IH]; intros m ts Hfl Hlen; [lia|].
+  cbn [nest]. destruct ts as [|x ts'].
+  - destruct m; cbn; auto.
+  - cbn [length] in Hlen |- *.
+    assert (Hfl' : is_flat ts' = true) by (destruct x; cbn in Hfl; congruence).
+    (* generic "copy this bit and continue in the same mode" step *)
+    assert (Hplain : forall o,
+       (forall st, balanced_from (st0 m st) (tok_of_bit o :: toks ts') = balanced_from (st0 m st) (toks ts')) ->
+       match (do y <- nest f m ts'; let '(bs0, t0, r') := y in Ok (o :: bs0, t0, r')) with
+       | Ok (bs, t, r) => mt_ok m t r /\ length r <= S (length ts') /\ is_flat r = true /\
+                          forall st, balanced_from (st0 m st) (tok_of_bit o :: toks ts') = balanced_from (st1 m t st) (toks r)
+       | Err => forall st, balanced_from (st0 m st) (tok_of_bit o :: toks ts') = false
+       | Panic => False
+       end).
+    { intros o Ho. specialize (IH m ts' Hfl' ltac:(lia)).
+      destruct (nest f m ts') as [[[bs' t'] r']| |]; cbn [bind].
+      - destruct IH as (A & B & C & D). repeat split; auto. intros st. rewrite Ho. apply D.
+      - intros st. rewrite Ho. apply IH.
+      - exact IH. }
+    destruct x as [c|d|c d|c p q|d]; cbn [toks map]; try (apply Hplain; intros st; reflexivity); [|cbn in Hfl; discriminate].
+    cbn [tok_of_bit]. destruct (is_if c) eqn:Hif.
+    + (* conditional opener *)
+      pose proof (IH Pass ts' Hfl' ltac:(lia)) as H1.
+      destruct (nest f Pass ts') as [[[p tp] r1]| |]; [| |exact H1].
+      * destruct H1 as (M1 & L1 & F1 & B1). unfold toks in *.
+        destruct tp; [destruct M1| |]; cbn [st0 st1] in B1.
+        -- (* ELSE *)
+           pose proof (IH Fail r1 F1 ltac:(lia)) as H2.
+           destruct (nest f Fail r1) as [[[q tq] r2]| |]; [| |exact H2].
+           ++ destruct H2 as (M2 & L2 & F2 & B2).
+              destruct tq; try (destruct M2). cbn [st0 st1] in B2.
+              pose proof (IH m r2 F2 ltac:(lia)) as H3.
+              destruct (nest f m r2) as [[[bs' t'] r']| |]; cbn [bind]; [| |exact H3].
+              ** destruct H3 as (M3 & L3 & F3 & B3). repeat split; auto; [lia|].
+                 intros st. cbn [balanced_from]. rewrite Hif.
+                 rewrite (B1 (st0 m st)). rewrite (B2 (st0 m st)). apply B3.
+              ** intros st. cbn [balanced_from]. rewrite Hif.
+                 rewrite (B1 (st0 m st)). rewrite (B2 (st0 m st)). apply H3.
+           ++ intros st. cbn [balanced_from]. rewrite Hif. rewrite (B1 (st0 m st)). apply H2.
+        -- (* ENDIF *)
+           pose proof (IH m r1 F1 ltac:(lia)) as H3.
+           destruct (nest f m r1) as [[[bs' t'] r']| |]; cbn [bind]; [| |exact H3].
+           ++ destruct H3 as (M3 & L3 & F3 & B3). repeat split; auto; [lia|].
+              intros st. cbn [balanced_from]. rewrite Hif. rewrite (B1 (st0 m st)). apply B3.
+           ++ intros st. cbn [balanced_from]. rewrite Hif. rewrite (B1 (st0 m st)). apply H3.
+      * intros st. cbn [balanced_from]. rewrite Hif. apply (H1 (st0 m st)).
+    + (* ordinary opcode, or ELSE / ENDIF *)
+      destruct (c =? OP_ELSE)%N eqn:He.
+      * apply N.eqb_eq in He; subst c. change ((OP_ELSE =? OP_ENDIF)%N) with false.
+        destruct m.
+        -- apply (Hplain (BOp OP_ELSE)). intros st. reflexivity.
+        -- cbn. repeat split; auto.
+        -- apply (Hplain (BOp OP_ELSE)). intros st. reflexivity.
+      * destruct (c =? OP_ENDIF)%N eqn:Hd.
+        -- apply N.eqb_eq in Hd; subst c.
+           destruct m.
+           ++ apply (Hplain (BOp OP_ENDIF)). intros st. reflexivity.
+           ++ cbn. repeat split; auto.
+           ++ cbn. repeat split; auto.
+        -- assert (Hm : (match m with
+                         | Top | _ => do x <- nest f m ts'; let '(bs, t, r') := x in Ok (BOp c :: bs, t, r')
+                         end) = (do x <- nest f m ts'; let '(bs, t, r') := x in Ok (BOp c :: bs, t, r')))
+             by (destruct m; reflexivity).
+           destruct m; (apply (Hplain (BOp c)); intros st; cbn [tok_of_bit]; apply balanced_plain; assumption).
+Qed.
+
+(* acceptance of Script::from_bytes in terms of the independent tokenizer and the balance automaton *)
+Lemma nest_top_balanced ts :
+  is_flat ts = true ->
+  match nest_top ts with
+  | Ok _ => balanced (toks ts) = true
+  | Err => balanced (toks ts) = false
+  | Panic => False
+  end.
+Proof.
+  intros Hfl. unfold nest_top, balanced.
+  pose proof (nest_balanced (S (length ts)) Top ts Hfl ltac:(lia)) as H.
+  destruct (nest (S (length ts)) Top ts) as [[[bs t] r]| |]; cbn [bind].
+  - destruct H as (M & _ & _ & B). destruct t; [|destruct M|destruct M]. cbn in M. subst r.
+    specialize (B []). cbn in B. exact B.
+  - exact (H []).
+  - exact H.
+Qed.
+
+Lemma from_bytes_acceptance bs :
+  match tokenize_spec bs with
+  | TokOk ts => if balanced ts then exists s, from_bytes bs = Ok s else from_bytes bs = Err
+  | TokBad => from_bytes bs = Err
+  | TokTruncDirect => exists r, from_bytes bs = r /\ r <> Panic
+  end.
+Proof.
+  unfold tokenize_spec, from_bytes.
+  pose proof (tokenize_agrees (length bs) bs) as A.
+  destruct (tok_spec (length bs) bs) as [tks| |].
+  - destruct A as (ts & E & Em & _). rewrite E. cbn [bind].
+    pose proof (nest_top_balanced ts (tokenize_flat _ _ _ E)) as B. unfold toks in B. rewrite Em in B.
+    destruct (nest_top ts) as [s| |]; [rewrite B; eauto | rewrite B; reflexivity | destruct B].
+  - destruct A as (ts & E). rewrite E. cbn [bind].
+    pose proof (nest_top_balanced ts (tokenize_flat _ _ _ E)) as B.
+    destruct (nest_top ts) as [s| |]; [eexists; split; [reflexivity|discriminate] | eexists; split; [reflexivity|discriminate] | destruct B].
+  - rewrite A. reflexivity.
+Qed.
+
+Lemma from_bytes_no_panic bs : from_bytes bs <> Panic.
+Proof.
+  pose proof (from_bytes_acceptance bs) as H. destruct (tokenize_spec bs) as [ts| |].
+  - destruct (balanced ts); [destruct H as (s & ->); discriminate | rewrite H; discriminate].
+  - destruct H as (r & -> & Hr). exact Hr.
+  - rewrite H. discriminate.
+Qed.
+
+(* ------------------------------------------------------------------ *)
+(* push encoding helper *)
+Definition push_bit (d : bytes) : bit :=
+  match get_pushdata_opcode (N.of_nat (length d)) with
+  | None => BPush d
+  | Some c => BPushData c d
+  end.
+
+Ltac decide_cmp :=
+  repeat match goal with
+  | |- context[(?a <=? ?b)%N] => first [replace (a <=? b)%N with true by lia | replace (a <=? b)%N with false by lia]
+  | |- context[(?a <? ?b)%N] => first [replace (a <? b)%N with true by lia | replace (a <? b)%N with false by lia]
+  | |- context[(?a =? ?b)%N] => first [replace (a =? b)%N with true by lia | replace (a =? b)%N with false by lia]
+  end; cbn [andb orb negb].
+
+Lemma prefix_is_minimal len :
+  (1 <= len < 4294967296)%N -> get_pushdata_prefix_bytes len = Ok (minimal_prefix len).
+Proof.
+  intros H. unfold get_pushdata_prefix_bytes, minimal_prefix, OP_PUSHDATA1, OP_PUSHDATA2, OP_PUSHDATA4.
+  assert (len <= 75 \/ 76 <= len <= 255 \/ 256 <= len <= 65535 \/ 65536 <= len)%N as [C|[C|[C|C]]] by lia;
+    decide_cmp; reflexivity.
+Qed.
+
+Lemma nest_top_single b : (forall c, b <> BOp c) -> (forall c p q, b <> BIf c p q) -> nest_top [b] = Ok [b].
+Proof.
+  intros H1 H2. unfold nest_top. cbn [length nest].
+  destruct b; try (exfalso; eapply H1; reflexivity); try (exfalso; eapply H2; reflexivity); reflexivity.
+Qed.
+
+Lemma tokenize_nil f : tokenize f [] = Ok [].
+Proof. destruct f; reflexivity. Qed.
+
+Lemma tokenize_cons f b r :
+  tokenize (S f) (b :: r) =
+      let n := b2n b in
+      if negb (n =? 0)%N && (n <? 76)%N then
+        let k := N.to_nat n in
+        do rest <- tokenize f (skipn k r);
+        Ok (BPush (firstn k r) :: rest)
+      else if is_opcode n then
+        if (n =? 76)%N || (n =? 77)%N || (n =? 78)%N then
+          let w := if (n =? 76)%N then 1 else if (n =? 77)%N then 2 else 4 in
+          match read_le w r with
+          | None => Err
+          | Some (len, r1) =>
+            match read_exactN len r1 with
+            | None => Err
+            | Some (d, r2) => do rest <- tokenize f r2; Ok (BPushData n d :: rest)
+            end
+          end
+        else do rest <- tokenize f r; Ok (BOp n :: rest)
+      else Err.
+Proof. reflexivity. Qed.
+
+Lemma read_exactN_all d : read_exactN (N.of_nat (length d)) d = Some (d, []).
+Proof. pose proof (read_exactN_app d []) as H. rewrite app_nil_r in H. exact H. Qed.
+
+Lemma encode_pushdata_minimal d :
+  (1 <= N.of_nat (length d) < 4294967296)%N ->
+  encode_pushdata d = Ok (minimal_prefix (N.of_nat (length d)) ++ d) /\
+  from_bytes (minimal_prefix (N.of_nat (length d)) ++ d) = Ok [push_bit d].
+Proof.
+  intros H. split.
+  - unfold encode_pushdata. rewrite prefix_is_minimal by exact H. reflexivity.
+  - remember (N.of_nat (length d)) as len eqn:Hlen.
+    unfold from_bytes, minimal_prefix, push_bit, get_pushdata_opcode. rewrite <- Hlen.
+    assert (Hd : d ++ [] = d) by apply app_nil_r.
+    assert (len <= 75 \/ 76 <= len <= 255 \/ 256 <= len <= 65535 \/ 65536 <= len)%N as [C|[C|[C|C]]] by lia;
+      decide_cmp; cbn [app length]; rewrite tokenize_cons; cbv zeta; rewrite b2n_n2b by lia; decide_cmp.
+    + (* direct push *)
+      rewrite Hlen, Nat2N.id, skipn_all, firstn_all, tokenize_nil. cbn [bind].
+      apply nest_top_single; discriminate.
+    + change (is_opcode 76) with true. cbv iota.
+      change (n2b len :: d) with (le_bytes 1 len ++ d).
+      rewrite read_le_app by (cbn; lia).
+      rewrite Hlen, read_exactN_all, tokenize_nil.
+      cbn [bind]. apply nest_top_single; discriminate.
+    + change (is_opcode 77) with true. cbv iota.
+      rewrite read_le_app by (cbn; lia).
+      rewrite Hlen, read_exactN_all, tokenize_nil.
+      cbn [bind]. apply nest_top_single; discriminate.
+    + change (is_opcode 78) with true. cbv iota.
+      rewrite read_le_app by (cbn; lia).
+      rewrite Hlen, read_exactN_all, tokenize_nil.
+      cbn [bind]. apply nest_top_single; discriminate.
+Qed.
+
+(* the known-finding class is inhabited and really violates the round trip *)
+Lemma truncated_direct_push_refuted :
+  truncated_tail [x05; x01] = true /\
+  from_bytes [x05; x01] = Ok [BPush [x01]] /\ to_bytes [BPush [x01]] = [x01; x01].
+Proof. repeat split; vm_compute; reflexivity. Qed.
